@@ -40,3 +40,17 @@ Definition chk_case_safe (T : tables) : bool :=
     if is_none (license_lookup T X) then
       forallb (fun S => match fold_strip_suffix S X with Some Y => is_none (license_lookup T Y) | None => true end) [k_only; k_orlater]
     else true) (all_ids T).
+
+(* ---- C08 for listed -only ids: X and X-only are different ids at the same table position ---- *)
+Definition pos_eqb (a b : option (nat * nat)) : bool :=
+  match a, b with Some (i, j), Some (i', j') => if Nat.eqb i i' then Nat.eqb j j' else false | _, _ => false end.
+Definition chk_only_pairs (T : tables) : bool :=
+  forallb (fun x =>
+    if is_word x then
+      if existsb (str_eqb (x ++ k_only)) (lic_ids T) then
+        if ends_orlater x then false else
+        if pos_eqb (find_row x (rngs T) 0) (find_row (x ++ k_only) (rngs T) 0) then
+          if olex_eqb (lex_of T x) (Some [TLic x]) then olex_eqb (lex_of T (x ++ k_only)) (Some [TLic (x ++ k_only)]) else false
+        else false
+      else true
+    else true) (lic_ids T).
